@@ -187,6 +187,8 @@ func runService(r *lib.Rng, wait bool) {
 		return
 	}
 
+	runServiceNoDaemon(dir, bin)
+
 	// the scripted daemon
 	lis, err := net.Listen("tcp4", (&net.TCPAddr{IP: thePeer.ip, Port: 0}).String())
 	if err != nil {
@@ -423,4 +425,61 @@ func runService(r *lib.Rng, wait bool) {
 		os_ = append(os_, lib.L(lib.I(9), lib.L(), lib.I(0))) // the child died
 	}
 	w.Case("mp.service", tags, lib.L(as...), lib.V(lib.L(os_...), lib.I(int64(d.odd))))
+}
+
+// runServiceNoDaemon: a configuration without scion_daemon_address and with a reference clock in another AS
+// (createClocks supports the empty daemon address: no Pather is started).  No path can be available, so every
+// round has to report an error (errNoPath); a child that dies in the round - a nil Pather dereferenced - is the
+// observation class 9, which the oracle rejects.  One case of kind mp.service, tag nodaemon.
+func runServiceNoDaemon(dir, bin string) {
+	cfg := fmt.Sprintf("local_address = \"%s,%s\"\nntp_reference_clocks = [\"%s,%s:%d\"]\nscion_peer_clocks = [\"%s,%s:%d\"]\ndscp = 0\n",
+		ia, thePeer.ip, iaOf(1), thePeer.ip, serverPort, iaOf(2), thePeer.ip, serverPort)
+	cfgFile := filepath.Join(dir, "nodaemon.toml")
+	if err := os.WriteFile(cfgFile, []byte(cfg), 0o600); err != nil {
+		panic(err)
+	}
+	run := func(clock int) int64 {
+		// a fresh child per round: a child that died cannot be asked again
+		cmd := exec.Command(bin)
+		cmd.Env = append(os.Environ(), "SCION_TIME_VERIF_MP="+cfgFile)
+		cmd.Stderr = io.Discard
+		stdin, _ := cmd.StdinPipe()
+		stdout, _ := cmd.StdoutPipe()
+		if err := cmd.Start(); err != nil {
+			panic(err)
+		}
+		ch := &svcChild{cmd: cmd, in: stdin, out: bufio.NewScanner(stdout)}
+		cls := int64(9)
+		for ch.out.Scan() {
+			if strings.HasPrefix(ch.out.Text(), "verif-mp ready") {
+				thePeer.newRound([][]int64{nil}, true)
+				if c, ok := ch.round(clock, 500); ok {
+					cls = c
+				}
+				break
+			}
+		}
+		stdin.Close()
+		done := make(chan struct{})
+		go func() { cmd.Wait(); close(done) }()
+		select {
+		case <-done:
+		case <-time.After(3 * time.Second):
+			cmd.Process.Kill()
+		}
+		return cls
+	}
+	var as, os_ []string
+	for _, clock := range []int{0, 1} { // the reference clock and the peer clock
+		cls := run(clock)
+		thePeer.mu.Lock()
+		var hops []int64
+		for _, k := range thePeer.hops[0] {
+			hops = append(hops, int64(k))
+		}
+		thePeer.mu.Unlock()
+		as = append(as, lib.L(lib.I(int64(clock)), lib.L()))
+		os_ = append(os_, lib.L(lib.I(cls), lib.IL(hops), lib.I(0), lib.IL(make([]int64, len(hops))), lib.I(0)))
+	}
+	w.Case("mp.service", "nt,nodaemon", lib.L(as...), lib.V(lib.L(os_...), lib.I(0)))
 }
